@@ -17,6 +17,7 @@ LEVEL_TEXT = (
     "Bounded exploration: generated expressions/predicates over the portable operator set (depth <= 4, range literals "
     "with start/stop in -10..10 and step in -4..4 except 0, and/or arity 0-3, sequences of 1-4 expressions) are evaluated "
     "three ways on every row of {-3..3}^3; the row domain is exhaustive per expression, the expression space is sampled."
+    "  Deeply nested expressions (33-40 levels); SQLite's parser nesting limit is counted as a database limit."
 )
 LEVEL_NOTE = "trusts: reference evaluator (vf/core/expr.py), SQLite 3.40 as the reference database, SQLAlchemy rendering"
 RULE = (
